@@ -12,6 +12,7 @@ import (
 	"fmt"
 	"math/rand"
 	"os"
+	"runtime"
 	"sort"
 	"strconv"
 	"strings"
@@ -140,7 +141,7 @@ type cbEv struct {
 	at      int64
 }
 
-func ackqHist(n, threads, nops int, seed int64) M {
+func ackqHist(n, threads, nops int, seed int64, focus bool) M {
 	q := ack.NewQueue()
 	h := &hist{}
 	base := time.Unix(1700000000, 0)
@@ -162,6 +163,40 @@ func ackqHist(n, threads, nops int, seed int64) M {
 			keyLocks[k] = &sync.Mutex{}
 		}
 		return keyLocks[k]
+	}
+	if focus {
+		// a due entry, a burst of acknowledgements of the WRONG type on it (each must leave the entry exactly as it is) and a
+		// sweep at the same time; then, alone, another sweep: the entry must have fired exactly once by then
+		tg := int(atomic.AddInt64(&tag, 1))
+		h.do(0, M{"f": "insert", "s": "s0", "id": 1, "kind": "pub1", "d": -60000, "tag": tg, "ty": "", "now": 0}, func(o M) {
+			err := q.Insert("s0", mkInsert("pub1", 1), base.Add(-60*time.Second), func(expired bool, stored, received packet.Packet) {
+				cbmu.Lock()
+				cbs = append(cbs, cbEv{tag: tg, expired: expired, at: tick()})
+				cbmu.Unlock()
+			})
+			o["ok"] = err == nil
+		})
+		run(2, seed, func(t int, r *rand.Rand) {
+			if t == 0 {
+				for i := 0; i < nops*3; i++ {
+					ty := []string{"PUBREC", "PUBREL", "PUBCOMP"}[r.Intn(3)]
+					h.do(t, M{"f": "ack", "s": "s0", "id": 1, "ty": ty, "kind": "", "d": 0, "tag": 0, "now": 0}, func(o M) {
+						o["ok"] = q.Ack("s0", mkAck(ty, 1)) == nil
+					})
+				}
+				return
+			}
+			for i := r.Intn(40); i > 0; i-- { // start the sweep somewhere inside the burst
+				runtime.Gosched()
+			}
+			h.do(t, M{"f": "sweep", "now": 0, "s": "", "id": 0, "ty": "", "kind": "", "d": 0, "tag": 0, "ok": true}, func(o M) {
+				q.Expire(base)
+			})
+		})
+		h.do(0, M{"f": "sweep", "now": 0, "s": "", "id": 0, "ty": "", "kind": "", "d": 0, "tag": 0, "ok": true}, func(o M) {
+			q.Expire(base)
+		})
+		threads = 0
 	}
 	run(threads, seed, func(t int, r *rand.Rand) {
 		for i := 0; i < nops; i++ {
@@ -499,7 +534,11 @@ func main() {
 		k++
 		emit(poolHist(k, *threads, *nops, s))
 		k++
-		emit(ackqHist(k, *threads, *nops, s))
+		emit(ackqHist(k, *threads, *nops, s, false))
+		for j := 0; j < 3; j++ {
+			k++
+			emit(ackqHist(k, *threads, *nops, s*7+int64(j), true))
+		}
 		k++
 		emit(regHist(k, *threads, *nops, s))
 		k++
